@@ -593,6 +593,8 @@ _anon = [0]'''), (P, '''                self.anon_id += 1
         (TY, '''        ptr_to = self.ptr_to
         if isinstance(ptr_to, (Array, FunctionType)):
             return ptr_to.format_decl(f"(*{c}{v})")
+        elif _wraps_declarator(ptr_to):
+            return ptr_to.format_decl(f"*{c}{v}")
         else:
             return f"{ptr_to.format()}*{c}{v}"''', '''        ptr_to = self.ptr_to
         return f"{ptr_to.format()}*{c}{v}"''')),
@@ -756,4 +758,78 @@ CONTROLS += [
                 if aptok and aptok.type == "[":
                     dtype = self._parse_array_type(aptok, dtype)
                 break''')),
+]
+
+CONTROLS += [
+    # -------------------------------------------------- round-2 rules (R17.2 nesting, R18.2 format, R11.6, R11.7, R9.7)
+    pos("reference to pointer-to-array not handed to the pointee", ["C17"], ["R17.2"],
+        (TY, '''        elif _wraps_declarator(ref_to):
+            return ref_to.format_decl(f"& {name}")
+''', '')),
+    pos("function returning pointer-to-function appends its parameter list", ["C17"], ["R17.2"],
+        (TY, '''            return self.return_type.format_decl(f"{name}({params}{vararg})")''', '''            return f"{self.return_type.format()} {name}({params}{vararg})"''')),
+    pos("reference bypasses the pointer's own formatter", ["C17"], ["R17.2"],
+        (TY, '''            return ref_to.format_decl("(&)")
+        elif _wraps_declarator(ref_to):''', '''            return ref_to.format_decl("(&)")
+        elif isinstance(ref_to, Pointer) and isinstance(ref_to.ptr_to, (Array, FunctionType)):
+            return ref_to.ptr_to.format_decl("(*&)")
+        elif _wraps_declarator(ref_to):''')),
+    neg("declarator helper written with an explicit loop exit",
+        (TY, '''    while isinstance(t, Pointer):
+        t = t.ptr_to
+    return isinstance(t, (Array, FunctionType))''', '''    while True:
+        if not isinstance(t, Pointer):
+            return isinstance(t, (Array, FunctionType))
+        t = t.ptr_to''')),
+    pos("debug_print call site pre-formats its data", ["C18"], ["R18.2"],
+        (P, '''        self.debug_print("parameter: %s", param)''', '''        self.debug_print(f"parameter: {param}")''')),
+    pos("debug_print format with a missing conversion", ["C18"], ["R18.2"],
+        (P, '''        self.debug_print("parameter: %s", param)''', '''        self.debug_print("parameter:", param)''')),
+    neg("verbose printer without '%': call sites may pre-format",
+        (P, '''                fmt = f"[%4d] {fmt}"
+                args = (inspect.currentframe().f_back.f_lineno,) + args  # type: ignore
+                print(fmt % args)''', '''                print("[%4d]" % inspect.currentframe().f_back.f_lineno, fmt, *args)  # type: ignore'''),
+        (P, '''        self.debug_print("parameter: %s", param)''', '''        self.debug_print(f"parameter: {param}")''')),
+    pos("trailing-doc lookup moved before the initializer", ["C11"], ["R11.6"],
+        (P, '''        # check for array
+        tok = self.lex.token_if("[")
+        if tok:
+            dtype = self._parse_array_type(tok, dtype)
+''', '''        if doxygen is None:
+            doxygen = self.lex.get_doxygen_after()
+
+        # check for array
+        tok = self.lex.token_if("[")
+        if tok:
+            dtype = self._parse_array_type(tok, dtype)
+''')),
+    pos("plain comment no longer ends the trailing scan", ["C11"], ["R11.7"],
+        (L, '''                if tok.value.endswith("\\n") and self._extract_comments([tok]) is None:
+                    # a plain comment that ends the line ends the statement's
+                    # documentation too: what follows belongs to the next one
+                    break
+                comments.append(tok)''', '''                comments.append(tok)''')),
+    pos("plain comments skipped by the trailing scan", ["C11"], ["R11.7"],
+        (L, '''                if tok.value.endswith("\\n") and self._extract_comments([tok]) is None:
+                    # a plain comment that ends the line ends the statement's
+                    # documentation too: what follows belongs to the next one
+                    break
+                comments.append(tok)''', '''                if tok.value.startswith(("///", "//!", "/**", "/*!")):
+                    comments.append(tok)''')),
+    neg("plain-comment test written with the four prefixes",
+        (L, '''                if tok.value.endswith("\\n") and self._extract_comments([tok]) is None:''', '''                if tok.value.endswith("\\n") and not tok.value.startswith(("///", "//!", "/**", "/*!")):''')),
+    pos("trailing scan drops the token after the comments", ["C09", "C11"], ["R9.7", "R11.5"],
+        (L, '''            else:
+                new_tokbuf.append(tok)
+                if comments:
+                    break
+
+        new_tokbuf.extend(tokbuf)''', '''            else:
+                if comments:
+                    break
+                new_tokbuf.append(tok)
+
+        new_tokbuf.extend(tokbuf)''')),
+    pos("doc comment inside the line not recorded by the trailing scan", ["C11"], ["R11.5"],
+        (L, '''                if tok.value.endswith("\\n") and self._extract_comments([tok]) is None:''', '''                if not tok.value.endswith("\\n") or self._extract_comments([tok]) is None:''')),
 ]
